@@ -81,7 +81,7 @@ def event_key(e) -> tuple:
     )
 
 
-def expand_events(events, keep=None, limit: int = 100000):
+def expand_events(events, keep=None, limit: int = 100000, extra=None):
     """Distinct flat event sequences denoted by a list that may contain Alt items,
     restricted to the events selected by `keep` (sequences equal after the restriction
     are one sequence)."""
@@ -99,7 +99,7 @@ def expand_events(events, keep=None, limit: int = 100000):
                         new[ka + kb] = a + b
                 out = new
             elif keep is None or keep(item):
-                k = (event_key(item),)
+                k = ((event_key(item), extra(item) if extra else None),)
                 out = {ka + k: a + [item] for ka, a in out.items()}
             if len(out) > limit:
                 raise AnalysisError("event alternatives exceed the expansion budget")
@@ -173,6 +173,8 @@ class AState:
 
     def time_eq(self, a: str, b: str) -> None:
         a, b = self.trep(a), self.trep(b)
+        if a.startswith("time(") and not b.startswith("time("):
+            a, b = b, a  # keep the node-based spelling as representative
         if a != b:
             self.timeeq[a] = b
             for f in list(self.facts):
@@ -446,6 +448,8 @@ class Interp(Hooks):
             return f"ite({self._subst(e.test, d)}, {self.term(e.body, d)}, {self.term(e.orelse, d)})"
         if isinstance(e, ast.UnaryOp) and isinstance(e.op, ast.Not):
             return f"not {self.term(e.operand, d)}"
+        if isinstance(e, (ast.ListComp, ast.SetComp, ast.DictComp, ast.GeneratorExp, ast.Lambda, ast.JoinedStr)):
+            return f"expr@L{getattr(e, 'lineno', 0)}c{getattr(e, 'col_offset', 0)}"
         return self._subst(e, d)
 
     def _subst(self, e: ast.AST, d: AState) -> str:
@@ -573,6 +577,8 @@ class Interp(Hooks):
                     return f"lid({a[0]})@{ep}"
                 if fi.name == "get_track_neighbors" and len(a) >= 2:
                     return f"nbrs({a[0]}, {a[1]})@{ep}"
+                if fi.name == "has_track_id_at_time" and len(a) >= 2:
+                    return f"at_time({a[0]}, {a[1]})@{ep}"
                 if fi.name == "get_next_track_id":
                     return f"fresh_tid@{ep}"
                 if fi.name == "get_next_lineage_id":
@@ -836,6 +842,8 @@ class CondMixin:
                     self._add_edge_fact(d, a, b)
                 else:
                     d.add("noedge", a, b)
+            elif p and p[0] == "at_time" and not outcome:
+                d.add("notattime", p[1][0], p[1][1])
             return
         if not (isinstance(e, ast.Compare) and len(e.ops) == 1):
             t = self.term(e, d)
@@ -908,6 +916,14 @@ class CondMixin:
                 self.set_deg(d, "in", n, 0, 0, False)
             else:
                 self._add_edge_fact(d, t, n)
+                if n.endswith("[1]"):
+                    q = parse_call_term(n[:-3])
+                    if q and q[0] == "nbrs" and q[2] == d.epoch and d.has("isnone", n[:-3] + "[0]") and (
+                        d.has("notattime", q[1][0], q[1][1]) or q[1][0].startswith("fresh_tid")
+                    ):
+                        # the parent of the first track member after T is not itself a member
+                        # (none before T, none at T): it can only be a dividing node
+                        self.set_deg(d, "out", t, 2, 2, True)
             return
         # element of a track-neighbour pair:  nbrs(tid, T)@e[i]
         if t.endswith("[0]") or t.endswith("[1]"):
@@ -1220,9 +1236,12 @@ class Engine(CondMixin, Interp):
         if self._tracks_rooted(bt):
             where = self.term(tgt, d) if isinstance(tgt, ast.Attribute) else f"{bt}[{self.term(tgt.slice, d)}]"
             self.mutation(st, "store", {"target": where, "value": value}, tgt, bump=False)
-            m = _NODE_ATTR_STORE.match(where) if where else None
-            if m:
-                self.node_attr_store(d, m.group(2), m.group(3), value)
+            if (
+                isinstance(tgt, ast.Subscript)
+                and isinstance(tgt.value, ast.Subscript)
+                and self.term(tgt.value.value, d).endswith(".graph.nodes")
+            ):
+                self.node_attr_store(d, self.term(tgt.value.slice, d), self.term(tgt.slice, d), value)
             return
         if isinstance(tgt, ast.Subscript):
             key = self.term(tgt.slice, d)
@@ -1457,6 +1476,8 @@ class Engine(CondMixin, Interp):
         def dead(t) -> bool:
             if not isinstance(t, str):
                 return False
+            while t.startswith("time(") and t.endswith(")"):
+                t = t[5:-1]
             if ("@" in t or "#" in t) and t not in live:
                 return True
             return any(r not in live for r in _ROOT.findall(t))
